@@ -410,7 +410,7 @@ func defOpt(follow, norm bool) ref.WalkOpt {
 
 // ---- run / record histories ----------------------------------------------------------------------
 
-var changes = []string{"nothing", "create", "modify", "delete", "rename"}
+var changes = []string{"nothing", "create", "modify", "modify-same-size-and-mtime", "delete", "rename"}
 
 func applyChange(f []*ref.Node, ch string) ([]*ref.Node, []string) {
 	g := clone(f)
@@ -423,6 +423,20 @@ func applyChange(f []*ref.Node, ch string) ([]*ref.Node, []string) {
 			if n.Kind == 'f' {
 				n.Content = []byte("changed\n")
 				return g, []string{"sh", "-c", "printf 'changed\\n' > root/" + n.Name}
+			}
+		}
+	case "modify-same-size-and-mtime":
+		// as cp -p / rsync -t / reproducible builds do: other bytes, same length, same modification time
+		for _, n := range g {
+			if n.Kind == 'f' {
+				old := n.Content
+				nc := append([]byte{}, old...)
+				if len(nc) == 0 {
+					continue
+				}
+				nc[0] ^= 0x01
+				n.Content = nc
+				return g, []string{"sh", "-c", fmt.Sprintf("printf '\\%03o' > root/.first && tail -c +2 root/%s >> root/.first && touch -r root/%s root/.first && mv root/.first root/%s", nc[0], n.Name, n.Name, n.Name)}
 			}
 		}
 	case "delete":
@@ -734,7 +748,7 @@ func init() {
 	mcx.Register(&mcx.Driver{
 		ID: "C13", Run: run, Replay: replay,
 		Rule: "(a) every directory tree with <= 4 (thorough 5) nodes below the recorded root: names {a,b,c}, depth <= 3, regular files with 4 contents (LF, CR/LF/CRLF mix, empty, 256 distinct bytes), directories, symbolic links whose target is every other node, '..', the link itself, a missing name or a file outside the recorded path (file links, directory links, chains, cycles, dangling links arise by construction), each materialised on disk and recorded under {follow directory links} x {normalise line endings}; " +
-			"(a') on all trees <= 3 nodes one deviation at a time of: 5 algorithm lists (two, sha384, none, unknown, three), 2 exclude patterns, 7 strip-prefix lists (incl. a second prefix that matches the remainder) x follow; a 100 KiB CR/LF file under normalise x follow, 4 path lists (two paths, duplicate, missing, reversed); (b) InTotoRun and InTotoRecordStart/Stop (also with the wrong key) x 5 changes between the snapshots x trees <= 2 nodes x wrappers; (c) InTotoMatchProducts for the 81 combinations of two link products and two local files in {absent, 1, 2}. " +
+			"(a') on all trees <= 3 nodes one deviation at a time of: 5 algorithm lists (two, sha384, none, unknown, three), 2 exclude patterns, 7 strip-prefix lists (incl. a second prefix that matches the remainder) x follow; a 100 KiB CR/LF file under normalise x follow, 4 path lists (two paths, duplicate, missing, reversed); (b) InTotoRun and InTotoRecordStart/Stop (also with the wrong key) x 6 changes between the snapshots (incl. a same-size rewrite that keeps the modification time) x trees <= 2 nodes x wrappers; (c) InTotoMatchProducts for the 81 combinations of two link products and two local files in {absent, 1, 2}. " +
 			"Oracle: ref.Walk on the description (never touches the disk). states = trees, transitions = recordings. non-trivial = non-empty tree.",
 		Assumptions: []string{"exclude patterns on trees containing symbolic links are don't-care (own path versus target path is not fixed by the statement); so is a plain-name pattern that names a directory (whether the directory's contents are recorded)", "error text is not compared, only error versus artifacts"},
 		BudgetQuick:  200e9,
